@@ -63,6 +63,9 @@ def generate(rng, i, tier):
             opsl.append({"op": "add", "name": rng.choice(NAMES), "src": rng.choice(srcs)})
         elif k == "remove":
             opsl.append({"op": "remove", "name": rng.choice(NAMES)})
+            if rng.random() < 0.3:
+                # the delete dies part-way (I/O error after one file is gone); the caller asks again
+                opsl[-1]["fault_at"] = rng.randint(1, 3)
         elif k == "add_bad":
             # a registration that must fail (the source does not exist): the store must be left as it was
             opsl.append({"op": "add_bad", "name": rng.choice(NAMES), "src": rng.choice(["d9/gone.csv", "d0/never-written.csv", "d0"])})
@@ -86,7 +89,7 @@ def generate(rng, i, tier):
             opsl.append({"op": "swap"})
         else:
             opsl.append({"op": "restart"})
-    return {"seed": rng.getrandbits(32), "listdir_salt": rng.choice([None, rng.getrandbits(16), rng.getrandbits(16)]), "ops": opsl, "clock": rng.choice(["frozen", "frozen", "tick", "jumps"]), "log": rng.choice(["error"] * 5 + ["debug", "info"]), "inputs_prefix": rng.choice([""] * 4 + ["./", ".//"])}
+    return {"seed": rng.getrandbits(32), "listdir_salt": rng.choice([None, rng.getrandbits(16), rng.getrandbits(16)]), "ops": opsl, "clock": rng.choice(["frozen", "frozen", "tick", "jumps"]), "log": rng.choice(["error"] * 5 + ["debug", "info"]), "inputs_prefix": rng.choice([""] * 4 + ["./", ".//"]), "inputs_suffix": rng.choice([""] * 4 + ["/"])}
 
 
 def reductions(sc):
@@ -100,6 +103,8 @@ def reductions(sc):
         yield with_(sc, log="error")
     if sc.get("inputs_prefix"):
         yield with_(sc, inputs_prefix="")
+    if sc.get("inputs_suffix"):
+        yield with_(sc, inputs_suffix="")
     for j, op in enumerate(sc["ops"]):
         if op["op"] == "write" and op["content"] != "c0":
             c = [dict(o) for o in sc["ops"]]
@@ -296,7 +301,7 @@ def _manifest(name):
 def execute(sc):
     out = Out()
     seams.reset(sc["seed"], listdir_salt=sc.get("listdir_salt"))
-    with W.World(log_level=sc.get("log", "error"), inputs_prefix=sc.get("inputs_prefix", "")) as w:
+    with W.World(log_level=sc.get("log", "error"), inputs_prefix=sc.get("inputs_prefix", ""), inputs_suffix=sc.get("inputs_suffix", "")) as w:
         cs = ops.new_csvpaths()
         cs_alt = None
         age = 0
@@ -465,8 +470,25 @@ def execute(sc):
                 if op["name"] not in model:
                     out.log(step, "noop")
                     continue
-                with ops.quiet():
-                    cs.file_manager.remove_named_file(op["name"])
+                if op.get("fault_at"):
+                    from ..iofault import IOFault
+
+                    with IOFault(at=op["fault_at"], under=[os.path.join("inputs", "named_files")]) as fst:
+                        try:
+                            with ops.quiet():
+                                cs.file_manager.remove_named_file(op["name"])
+                        except Exception as e:  # noqa: BLE001
+                            if not fst["fired"] or (not ops.in_repo(e) and not isinstance(e, OSError)):
+                                raise
+                    if fst["fired"]:
+                        out.fault("io_error")
+                        cls.append("fault@" + fst["what"].split(" ")[0])
+                        out.probe("remove retried after an I/O error inside it")
+                        with ops.quiet():
+                            cs.file_manager.remove_named_file(op["name"])
+                else:
+                    with ops.quiet():
+                        cs.file_manager.remove_named_file(op["name"])
                 del model[op["name"]]
                 cls.append(op["name"])
             elif k == "add_bad":
@@ -506,6 +528,7 @@ def execute(sc):
         out.probe("source rewritten between a torn copy and its retry", False)
         out.probe("bulk registration that fails part-way", False)
         out.probe("registration retried after an I/O error inside it", False)
+        out.probe("remove retried after an I/O error inside it", False)
         out.nontrivial = any(len(vs) >= 2 for vs in model.values()) or any("repeat" in c for c in out.sig)
         out.states.append(json.dumps(sorted((n, [(v[0][:6], v[1]) for v in vs]) for n, vs in model.items())))
         out.runs = len(sc["ops"])
